@@ -41,6 +41,8 @@ def relock(run_symbolic, all_props):
         if r['errors'] or r['undecided']:
             print('relock: task %s has errors/undecided: %s %s' % (r['key'], r['errors'][:1], r['undecided']))
         for o in r['obligations']:
+            if (o.get('info') or {}).get('soft'):
+                continue
             for p in o['props']:
                 if p in by_prop:
                     by_prop[p].setdefault(o['name'], set()).add(r['key'])
